@@ -1,0 +1,17 @@
+//go:build verif
+
+package try
+
+// Contracts for package try, checked by /verif/govc.  Comment-only file.
+
+//@ func FlatMap(ta, fn) result
+//@   prop C01 C02
+//@   ensures ta.IsSuccess() ==> Eq(result, fn(ta.Get())) && Calls(1)
+//@   ensures !ta.IsSuccess() ==> Eq(result, fp.Failure[B](ta.Failed().Get())) && NoCalls()
+//
+//@ include internal/verifspec/monad.contracts MO=fp.Try[ TP= TPU= PURE=Success X=
+//
+//@ func Of(f) result
+//@   prop C02
+//@   ensures !Panics(f()) ==> Eq(result, Success(f()))
+//@   ensures Panics(f()) ==> result.IsFailure()
